@@ -14,11 +14,12 @@ Unknown shapes are counted, never reported.
 """
 from __future__ import annotations
 
-from typing import Any, Dict, List, Optional, Tuple
+from typing import Any, Dict, List, Optional, Sequence, Tuple
 
 from .base import *  # noqa: F401,F403
 from .sites import function_sites, typer_of
 from ..types import is_cls, Typer
+from .. import boolfn
 
 TTIME = "mosaik.tiered_time.TieredTime"
 TINT = "mosaik.tiered_time.TieredInterval"
@@ -330,7 +331,143 @@ def run(ctx: Ctx) -> Collector:
     okd = bool(sr) and bool(mf) and dict(sr[0].term[3]).get("depth") == ("attr", cg, "depth") and mf[0].term[2][1] == cg \
         and not any(x.kind == "store" and x.term[1] == cg for x in ws.events)
     c.check(okd, "fields", "mosaik.scenario.World.start", "runner depth and factory group from the same current_group", "SimRunner depth and ModelFactory group do not come from the same current_group", wfi.loc)
+    _init_state(ctx, c)
     return c
+
+
+def _lin(t: Term, depth: Term):
+    """A length that is linear in the depth parameter: (coefficient, constant), or None."""
+    t = T.strip(t)
+    if t == depth:
+        return (1, 0)
+    if t[0] == "const" and isinstance(t[1], int) and not isinstance(t[1], bool):
+        return (0, t[1])
+    if t[0] == "op" and t[1] in ("+", "-") and len(t) == 4:
+        a, b = _lin(t[2], depth), _lin(t[3], depth)
+        if a is None or b is None:
+            return None
+        return (a[0] + b[0], a[1] + b[1]) if t[1] == "+" else (a[0] - b[0], a[1] - b[1])
+    if t[0] == "call" and t[1] == T.glob("len") and len(t[2]) == 1:
+        sh = tiers_shape((t[2][0],), depth)
+        if sh is not None:
+            return (sh[1][0], sh[1][1] + len(sh[0]))
+    return None
+
+
+def _zeros(t: Term, depth: Term):
+    """`[0] * n`, `(0,) * n`, `n * [0]`, `[0 for _ in range(n)]`: n zeros, n linear in depth."""
+    t = T.strip(t)
+    if t[0] == "op" and t[1] == "*" and len(t) == 4:
+        for seq, n in ((t[2], t[3]), (t[3], t[2])):
+            seq = T.strip(seq)
+            one = (seq[0] == "bag" and len(seq[1]) == 1 and seq[1][0][1] == T.const(0) and not seq[1][0][2] and not seq[1][0][3]) or \
+                  (seq[0] == "tuple" and len(seq[1]) == 1 and seq[1][0] == T.const(0))
+            if one:
+                return _lin(n, depth)
+    if t[0] == "bag" and len(t[1]) == 1 and t[1][0][1] == T.const(0) and not t[1][0][2] and len(t[1][0][3]) == 1:
+        src = T.strip(t[1][0][3][0][2])
+        if src[0] == "call" and src[1] == T.glob("range") and len(src[2]) == 1:
+            return _lin(src[2][0], depth)
+    return None
+
+
+def tiers_shape(args: Sequence[Term], depth: Term):
+    """The positional arguments of a TieredTime / TieredInterval construction as (leading constants, number of zeros
+    that follow as (coefficient of depth, constant)), or None."""
+    lead: List[Any] = []
+    zeros = (0, 0)
+    for a in args:
+        a0 = T.strip(a)
+        if a0[0] == "star":
+            z = _zeros(a0[1], depth)
+            if z is None:
+                return None
+            zeros = (zeros[0] + z[0], zeros[1] + z[1])
+        elif a0[0] == "const" and isinstance(a0[1], int):
+            if zeros != (0, 0):
+                if a0[1] != 0:
+                    return None
+                zeros = (zeros[0], zeros[1] + 1)
+            else:
+                lead.append(a0[1])
+        else:
+            return None
+    # leading zeros count as zeros when nothing else leads
+    while lead and lead[-1] == 0 and all(x == 0 for x in lead):
+        lead.pop()
+        zeros = (zeros[0], zeros[1] + 1)
+    return tuple(lead), zeros
+
+
+def _init_state(ctx: Ctx, c: Collector) -> None:
+    """The state a simulator starts from (SimRunner.__init__): progress 0 in every tier, no step performed yet (last step at
+    time -1), no step in flight, a first step at time 0 (sub-step 0) demanded iff the simulator is not event-based."""
+    qn = "mosaik.simmanager.SimRunner.__init__"
+    fi = ctx.func(qn)
+    s = ctx.summ(qn)
+    me = T.var(fi.params[0])
+    depth = T.var("depth")
+    TT = T.glob("mosaik.tiered_time.TieredTime")
+
+    def time_of(t: Term):
+        t = T.strip(t)
+        if t[0] == "call" and t[1] == TT and not t[3]:
+            return tiers_shape(t[2], depth)
+        return None
+    ZERO_D = ((), (1, 0))
+    stores: Dict[str, List[Event]] = {}
+    for e in s.of_kind("store"):
+        if e.term[1][0] == "attr" and e.term[1][1] == me:
+            stores.setdefault(e.term[1][2], []).append(e)
+    pr = []
+    # progress
+    pg = stores.get("progress", [])
+    okp = len(pg) == 1 and not pg[0].guards and pg[0].term[2][0] == "call" and pg[0].term[2][1] == T.glob("mosaik.progress.Progress") \
+        and len(pg[0].term[2][2]) == 1 and time_of(pg[0].term[2][2][0]) == ZERO_D
+    if not okp:
+        pr.append("the progress does not start at time 0 in every tier of the simulator's depth")
+    ls = stores.get("last_step", [])
+    if not (len(ls) == 1 and not ls[0].guards and time_of(ls[0].term[2]) == ((-1,), (1, -1))):
+        pr.append("last_step does not start as (-1, 0, ..., 0) of the simulator's depth (the time before the first step: the cache is pruned and output times are validated against it)")
+    cs = stores.get("current_step", [])
+    if not (len(cs) == 1 and not cs[0].guards and cs[0].term[2] == T.NONE):
+        pr.append("current_step does not start as None (no step in flight)")
+    # the first demanded step
+    ns = stores.get("next_steps", [])
+    typ_leaves: Dict[Term, str] = {}
+    for e in ns:
+        for g in e.guards:
+            for x in T.subterms((T.guard_term(g),)):
+                if x[0] == "cmp" and x[1] in ("==", "!=") and any(y[0] == "const" and isinstance(y[1], str) for y in (x[2], x[3])):
+                    typ_leaves[boolfn.canon_leaf(x)[0]] = [y for y in (x[2], x[3]) if y[0] == "const"][0][1]
+    if not ns:
+        pr.append("next_steps is not initialised")
+    elif not typ_leaves and len(ns) == 1 and not ns[0].guards:
+        v = T.strip(ns[0].term[2])
+        pr.append("every simulator type starts with the same schedule: " + ("event-based simulators get a step at time 0 that nobody demanded" if elems_of(v) else "time-based and hybrid simulators never perform their first step"))
+    elif not typ_leaves:
+        c.unk("fields", qn, "initial state", "the condition of the initial schedule is not a test of the simulator type", fi.loc)
+        return
+    else:
+        try:
+            for ty in ("time-based", "event-based", "hybrid"):
+                is_ev = ty == "event-based"
+                live = [e for e in ns if boolfn.guards_hold_leaves(e.guards, {l: (k == ty) for l, k in typ_leaves.items()})]
+                if not live:
+                    pr.append(f"{ty} simulators get no initial schedule")
+                    continue
+                v = T.strip(live[-1].term[2])
+                els = elems_of(v)
+                if v[0] != "bag" or any(x[2] or x[3] for x in els):
+                    pr.append(f"the initial schedule {T.show(v)[:60]} is not a plain list")
+                elif is_ev and els:
+                    pr.append("an event-based simulator starts with a scheduled step that nobody demanded")
+                elif not is_ev and not (len(els) == 1 and time_of(els[0][1]) == ZERO_D):
+                    pr.append(f"a {ty} simulator does not start with exactly one demanded step at time 0, sub-step 0, of its depth")
+        except boolfn.NotBoolean as ex:
+            c.unk("fields", qn, "initial state", f"condition not understood: {ex}", fi.loc)
+            return
+    c.add("fields", qn, "initial state: progress 0, last step -1, nothing in flight, first step at 0 iff not event-based", VIOLATED if pr else DISCHARGED, "; ".join(pr), fi.loc)
 
 
 from ..report import VIOLATED, DISCHARGED  # noqa: E402
